@@ -267,6 +267,11 @@ def run_spec(spec, R):
                         "sig": ["history", "O2", op.kind, rec["k"], rec["v"].split(":")[0] if rec["k"] == "exc" else "value"],
                     }
                 )
+        if viol and ":globalns" in op.name:
+            # metadata built under one SerializerConfig.globalns serves every later caller (recorded finding)
+            for v in viol:
+                if v["sig"][0] != "globalns-override":
+                    v["sig"] = ["globalns-override"] + list(v["sig"])
         if viol:
             break
     nsmap_sizes = [len(t.ns_map) for e in envs for t in e.tools.values() if hasattr(t, "ns_map")]
